@@ -697,6 +697,7 @@ def suite_includes(exe, tier, seed):
             os.makedirs(os.path.dirname(pth), exist_ok=True)
             open(pth, "w").write(text)
         for rel, target in (links or {}).items():
+            os.makedirs(os.path.dirname(os.path.join(d, rel)), exist_ok=True)
             os.symlink(os.path.join(d, target), os.path.join(d, rel))
         return d
 
@@ -773,6 +774,11 @@ def suite_includes(exe, tier, seed):
                   dict(reachable=["a.circom"], must_error=(".", "a.circom:2"))))
     cases.append(("directory-shadows-library-file", {"a.circom": A(["u.circom"]) + tpl("A") + main_a, "u.circom/keep.txt": "", "lib/u.circom": PRAGMA + tpl("U", True)}, None, ["-L", "lib", "a.circom"],
                   dict(reachable=["a.circom", "lib/u.circom"], analyzed={"A"}, findings_in=["a.circom"])))
+    # a library file that is a symbolic link is known by the name it was given with, not by the name of its target
+    cases.append(("library-file-is-a-symlink", {"a.circom": A(["poseidon.circom"]) + tpl("A") + main_a, "store/abc123.circom": PRAGMA + tpl("P", True)}, {"links/poseidon.circom": "store/abc123.circom"}, ["-L", "links/poseidon.circom", "a.circom"],
+                  dict(reachable=["a.circom", "store/abc123.circom"], analyzed={"A"}, findings_in=["a.circom"])))
+    cases.append(("library-file-symlink-target-name-not-offered", {"a.circom": A(["abc123.circom"]) + tpl("A") + main_a, "store/abc123.circom": PRAGMA + tpl("P", True)}, {"links/poseidon.circom": "store/abc123.circom"}, ["-L", "links/poseidon.circom", "a.circom"],
+                  dict(reachable=["a.circom"], must_error=("abc123.circom", "a.circom:2"))))
     # a named directory that contains symbolic links to itself and to its parent: walked once
     cases.append(("directory-with-links-to-itself", {"d/a.circom": PRAGMA + tpl("A", True), "d/sub/b.circom": PRAGMA + tpl("B", True)}, {"d/loop1": "d", "d/loop2": "d", "d/sub/up": "d"}, ["d"],
                   dict(reachable=["d/a.circom", "d/sub/b.circom"], analyzed={"A", "B"})))
@@ -823,7 +829,7 @@ def suite_includes(exe, tier, seed):
     return {"unit": "e2e-includes", "evaluations": evals, "distinct_nontrivial": nontrivial, "exhaustive": False,
             "rule": "the real CLI under strace on small multi-file projects: it terminates with exit 0/1; every reachable file is opened exactly once whatever paths or spellings lead to it; a shadowed file is not opened; only templates of the files named on the command line are analyzed and only those files carry findings; an unresolvable include is an error located at the include statement",
             "strace_available": strace_seen,
-            "bound": "24 include graphs (5 more on library files answering only single-component includes, library sub-paths, an unresolvable include in a file that is both included and named): chain, diamond, cycle, self-include, ./ and ../ spellings, resolution relative to the including file, -L library, relative-before-library, a library file that is also named, a library file reached by two routes, symlink, both files named (either order), a file named twice and included, unresolved include",
+            "bound": "26 include graphs (5 more on library files answering only single-component includes, library sub-paths, an unresolvable include in a file that is both included and named): chain, diamond, cycle, self-include, ./ and ../ spellings, resolution relative to the including file, -L library, relative-before-library, a library file that is also named, a library file reached by two routes, symlink, both files named (either order), a file named twice and included, unresolved include",
             "samples": samples, "violations": viol}
 
 
@@ -1274,11 +1280,38 @@ def suite_positions(exe, tier, seed):
             if bad and len(viol) < 20:
                 viol.append({"unit": "e2e", "fn": "report locations", "obligation": f"e2e|positions|all-labels:{pname}", "props": ["C04"],
                              "input": {"case": pname, "files": files}, "what": f"all-labels/{pname}: {bad}", "replay": "python3 run/e2e.py positions quick 0"})
+        # ---- the file a SARIF location names is the file that was read, whatever characters its name contains
+        import urllib.parse
+        for wname in ('we"ird.circom', "sp ace #1.circom", "pct%41.circom", "\u00e9t\u00e9.circom"):
+            wpath = os.path.join(d, wname)
+            open(wpath, "w").write("pragma circom 2.0.0;\ntemplate T() { signal input a; signal output b; b <-- a * a; }\ncomponent main = T();\n")
+            sar = os.path.join(d, "w.sarif")
+            if os.path.exists(sar):
+                os.unlink(sar)
+            rc, out, err = run_cli(exe, ["--sarif-file", sar, wpath], d)
+            evals += 1; nontrivial += 1
+            bad = None
+            if rc is None or "panicked" in err or rc not in (0, 1):
+                bad = f"the tool aborted or hung (exit {rc})"
+            else:
+                try:
+                    uris = {l["physicalLocation"]["artifactLocation"]["uri"] for r in json.load(open(sar))["runs"][0]["results"] for l in r.get("locations", [])}
+                except Exception as e:
+                    uris, bad = set(), f"unreadable SARIF ({e})"
+                for u in sorted(uris):
+                    named = urllib.parse.unquote(u[len("file://"):]) if u.startswith("file://") else u
+                    if os.path.realpath(named) != os.path.realpath(wpath):
+                        bad = f"the SARIF location names `{u}`, i.e. the file `{named}`; the findings are about `{wpath}`"
+                if not uris and not bad:
+                    bad = "no SARIF location at all for a file with three findings"
+            if bad and len(viol) < 20:
+                viol.append({"unit": "e2e", "fn": "sarif_conversion::to_uri", "obligation": "e2e|positions|sarif-file-name", "props": ["C04", "C03"],
+                             "input": {"file": wname}, "what": f"sarif-file-name/{wname}: {bad}", "replay": "python3 run/e2e.py positions quick 0"})
     finally:
         shutil.rmtree(d, ignore_errors=True)
     return {"unit": "e2e-positions", "evaluations": evals, "distinct_nontrivial": nontrivial, "exhaustive": False,
             "rule": "the real CLI on a template whose `out <-- in * in;` statement is preceded by text that shifts byte offsets (multi-byte characters in comments and strings, tabs, CRLF, long lines, a byte order mark): the label of the finding about that statement underlines exactly the statement, on its line, in the terminal output and in SARIF; a file the tool cannot tokenise must be rejected with a parse error rather than analysed with shifted positions; on a fixture with findings of 11 kinds (shadowing, unused parameter, dead assignment, unused variable, constant condition, both `<--` findings, divisor, intermediate signal, Num2Bits instantiation, unconstrained signal) the label of each finding underlines exactly the source text of the construct it is about",
-            "bound": "12 placements of one statement; one fixture with 16 findings of 11 kinds (three of them infix expressions that begin or end with a parenthesised operand) in 4 renderings (plain, multi-byte comment first, CRLF, tabs); 6 truncated files (end of file inside a template, unterminated comments): the error is on the last line / underlines the `/*`; a two-file project (the named file instantiates a template and calls a function of a longer included file): every primary and related label of every SARIF result names a file of the project and lies inside it", "samples": samples, "violations": viol}
+            "bound": "12 placements of one statement; one fixture with 16 findings of 11 kinds (three of them infix expressions that begin or end with a parenthesised operand) in 4 renderings (plain, multi-byte comment first, CRLF, tabs); 6 truncated files (end of file inside a template, unterminated comments): the error is on the last line / underlines the `/*`; a two-file project (the named file instantiates a template and calls a function of a longer included file): every primary and related label of every SARIF result names a file of the project and lies inside it; four files with a quote, a space, `#`, `%` or non-ASCII letters in their names: the SARIF URI decodes to the file that was read", "samples": samples, "violations": viol}
 
 
 def sigassign_program(rng, n_stmts):
